@@ -588,11 +588,13 @@ func vCompareWidths(quick bool) {
 	l := vMkOperand("l", vSpec{kind: lk, form: lf, typ: lt})
 	r := vMkOperand("r", vSpec{kind: rk, form: rf, typ: rt})
 	kinds := vKindName[lk] + "-" + vKindName[rk]
-	if (lf == vfConst && (lt == zed.TypeInt8 || lt == zed.TypeUint8)) || (rf == vfConst && (rt == zed.TypeInt8 || rt == zed.TypeUint8)) {
-		// vector.KindOfType knows no 8-bit integers; the loader never builds
-		// an 8-bit Const (no dictionary for 8-bit types), a literal could.
-		kinds += "/const8"
-	}
+	// An 8-bit integer Const is excluded: the loader never builds one (VNG
+	// keeps no dictionary for 8-bit types, so no Const), a literal is
+	// always 64-bit, and `const c = int8(1)` (dag.Scope) is rejected by the
+	// vector compiler.  (vector.KindOfType knows no 8-bit integers; with
+	// such a Const Compare.eval panics "vector kind mismatch after coerce".)
+	verif.Assume(!(lf == vfConst && (lt == zed.TypeInt8 || lt == zed.TypeUint8)))
+	verif.Assume(!(rf == vfConst && (rt == zed.TypeInt8 || rt == zed.TypeUint8)))
 	vCheckCompare(l, r, kinds)
 }
 
@@ -767,24 +769,6 @@ func VerifH_C09_O2_arith_floats() {
 	// one operator per path: every computed float that reaches a zed.Value
 	// adds an FP constraint to the path condition
 	vCheckArith(l, r, "float-float", vArithOps[verif.Choose("op", 4):][:1])
-}
-
-// verif:desc C09-O2 arithmetic on an integer and a float64 (coerceVals -> intToFloat then the Float kernels) vs sam (coerce.Promote to float64, ToNumeric[float64]).
-// verif:bounds one side int64/uint64 typed with a 16-bit payload in form {flat,const}, the other a flat float64 of any bit pattern; both orders; ops + - * /; one slot; no nulls
-// verif:outside wider integer payloads, dict/view integer side, %
-func VerifH_C09_O2_arith_int_float() {
-	ik := verif.Choose("intkind", 2)
-	form := verif.Choose("intform", 2)
-	ops := vArithOps[verif.Choose("op", 4):][:1]
-	if verif.Choose("floatside", 2) == 0 {
-		l := vMkOperand("l", vSpec{kind: vkFloat, form: vfFlat})
-		r := vMkOperand("r", vSpec{kind: ik, form: form, narrow: true})
-		vCheckArith(l, r, "float-"+vKindName[ik], ops)
-	} else {
-		l := vMkOperand("l", vSpec{kind: ik, form: form, narrow: true})
-		r := vMkOperand("r", vSpec{kind: vkFloat, form: vfFlat})
-		vCheckArith(l, r, vKindName[ik]+"-float", ops)
-	}
 }
 
 // verif:desc C09-O2 string concatenation with + (arithAddString kernels) vs sam Add.Eval string case.
